@@ -23,6 +23,11 @@ RULE = "(layout, batch size, world, rank, workers, crop) runs of Engine.predict 
 PRE = "From DV Require Import Base.Tactics Model.C14.\nOpen Scope nat_scope.\n"
 
 
+def _recon_of(v, recon):
+    """Header reconstruction size of volume v (differs between volumes)."""
+    return (recon[0] + v % 2, recon[1] + (v // 2) % 2)
+
+
 def _make_dataset(layout, hw=(5, 4), recon=None):
     import torch
     from torch.utils.data import Dataset
@@ -49,7 +54,8 @@ def _make_dataset(layout, hw=(5, 4), recon=None):
             marker = 100 * (v + 1) + k + 1
             d = {"filename": name, "slice_no": k, "marker": torch.tensor(float(marker)), "scaling_factor": torch.tensor(2.0 ** ((v + k) % 5 - 2))}
             if recon is not None:
-                d["reconstruction_size"] = [recon[0], recon[1], 1]
+                rv = _recon_of(v, recon)
+                d["reconstruction_size"] = [rv[0], rv[1], 1]
             return d
 
     return VolDataset()
@@ -85,7 +91,7 @@ def run_impl(layout, bs, world, rank, workers, crop, root):
 
     H.setup()
     hw = (5, 4)
-    recon = (3, 2) if crop else None
+    recon = (2, 2) if crop else None
     ds = _make_dataset(layout, hw, recon)
     eng = _engine(hw)
     old = (communication.get_rank, communication.get_world_size)
@@ -104,12 +110,14 @@ def run_impl(layout, bs, world, rank, workers, crop, root):
     res = []
     pix_ok = True
     h, w = hw
-    base = torch.arange(h * w, dtype=torch.float32).reshape(h, w) / 1024.0
-    if crop:
-        lo2, lo1 = (h - recon[0]) // 2, (w - recon[1]) // 2
-        base = base[lo2 : lo2 + recon[0], lo1 : lo1 + recon[1]]
+    full = torch.arange(h * w, dtype=torch.float32).reshape(h, w) / 1024.0
     for vol, _loss, fname in out:
         v = names.index(str(fname))
+        base = full
+        if crop:
+            rv = _recon_of(v, recon)
+            lo2, lo1 = (h - rv[0]) // 2, (w - rv[1]) // 2
+            base = full[lo2 : lo2 + rv[0], lo1 : lo1 + rv[1]]
         markers = []
         if vol.ndim != 4 or vol.shape[1] != 1 or tuple(vol.shape[2:]) != tuple(base.shape):
             pix_ok = False
@@ -120,6 +128,22 @@ def run_impl(layout, bs, world, rank, workers, crop, root):
             if sl.shape == base.shape and not torch.allclose(sl - m, base, atol=1e-3):
                 pix_ok = False
         res.append([v, markers])
+    # written volumes: one file per volume, (slices, height, width), same values
+    import h5py
+    from direct.utils.writers import write_output_to_h5
+
+    wd = tempfile.mkdtemp(prefix="c14w_", dir=root)
+    try:
+        write_output_to_h5(out, pathlib.Path(wd))
+        for vol, _loss, fname in out:
+            with h5py.File(os.path.join(wd, pathlib.Path(fname).name), "r") as f:
+                rec = f["reconstruction"][()]
+            if tuple(rec.shape) != (vol.shape[0],) + tuple(vol.shape[2:]) or not (rec == vol.numpy()[:, 0]).all():
+                pix_ok = False
+        if sorted(os.listdir(wd)) != sorted(pathlib.Path(f).name for _, _, f in out):
+            pix_ok = False
+    finally:
+        shutil.rmtree(wd, ignore_errors=True)
     return res, batches, ds, pix_ok
 
 
@@ -223,7 +247,7 @@ def oracles(ctx, deep):
         if res != want:
             add(Violation("each-volume-once-in-order", "%s returned %s, expected %s" % (call, res, want), {"call": call, "observed": res, "expected": want}, {"kind": "volumes"}))
         elif not pix_ok:
-            add(Violation("slice-rescaled-and-cropped", "%s: slices are not the model output times the slice's scaling factor, centre-cropped to the requested size" % call, {"call": call}, {"kind": "pixels", "crop": crop}))
+            add(Violation("slice-rescaled-and-cropped", "%s: slices are not the model output times the slice's scaling factor, centre-cropped to the size requested for that volume, or the written h5 files differ from the returned volumes" % call, {"call": call}, {"kind": "pixels", "crop": crop}))
     shutil.rmtree(root, ignore_errors=True)
     ctx.oracle_runs = runs
     return out
